@@ -102,6 +102,11 @@ def diff_program(prog: Dict[str, Any], impl: Any, model: Any, facets: Iterable[s
             # EvaluationError and carries on; the model's fuel ends the run) — nothing after it is comparable
             break
         va, vb = facet_views(op, a, "impl"), facet_views(op, b, "model")
+        if op.get("no_recording"):
+            # no pass-through handlers installed: the request log was not recorded on the implementation side
+            va.pop("req", None)
+            va["log"] = {"emitted": va["log"]["emitted"]}
+            vb["log"] = {"emitted": vb.get("log", {}).get("emitted", [])}
         for f in va:
             if f in facets and va[f] != vb.get(f):
                 out.append({"op": i, "facet": f, "impl": va[f], "model": vb.get(f)})
